@@ -324,8 +324,28 @@ func (c *ctx) runContainer(ops []op, origin string) []byte {
 		return nil
 	}
 	anyData := false
+	// every third container is also serialised and read BETWEEN its sets (a message that is logged while it is built,
+	// a container that is sent and then extended): what an earlier BytesBuffer / Get* call returned is the caller's
+	// (it is overwritten and drained here), and it must not fix what a later call returns
+	peek := c.caseNo%3 == 0 && len(ops) > 1
 	for i, o := range ops {
 		o := o
+		if peek && (i > 0 || c.caseNo%2 == 0) {
+			vf.Recover(func() {
+				if b := cont.BytesBuffer(); b != nil {
+					raw := b.Bytes()
+					for k := range raw {
+						raw[k] ^= 0x5a
+					}
+					b.Write([]byte{0xEE, 0x01, 0xEE})
+					b.Next(3)
+				}
+				if g := cont.GetBytes(o.Tag); len(g) > 0 {
+					g[0] ^= 0xff
+				}
+			})
+			c.count("serialisations_between_sets", 1)
+		}
 		panicked, text := vf.Recover(func() {
 			switch o.Kind {
 			case "SetByte":
@@ -1225,6 +1245,7 @@ func main() {
 	r.Floor("sets_exact_multiple_of_255", int(r.Counter("sets_exact_multiple_of_255")), 500)
 	r.Floor("containers_with_repeated_tag", int(r.Counter("containers_with_repeated_tag")), 1000)
 	r.Floor("sequence features", r.DistinctN("sequence_feature"), 7)
+	r.Floor("serialisations_between_sets", int(r.Counter("serialisations_between_sets")), 10000)
 	r.Floor("very_long_value_cases", int(r.Counter("very_long_value_cases")), len(rounds)*8)
 	r.Floor("parser_inputs", int(r.Counter("parser_inputs")), r.Pick(100000, 1000000))
 	r.Floor("parser truncations", int(r.Counter("parser_inputs_truncation-of-valid-encoding")), 10000)
